@@ -86,6 +86,8 @@ pub struct RandGen<'a> {
     pub names: Vec<String>,
     pub allow_any: bool,
     pub allow_tpl: bool,
+    /// typed arrays, bigint and Date as leaves
+    pub allow_exotic: bool,
 }
 
 const KEYS: [&str; 4] = ["a", "b", "c", "kind"];
@@ -102,6 +104,16 @@ impl RandGen<'_> {
                 _ => vec![c("id-"), I::Number],
             };
             return Runtype::tpl_lit_type(TplLitType(items));
+        }
+        if self.allow_exotic && self.rng.chance(1, 7) {
+            // leaves whose values are class instances: the typed-array classes (pairwise disjoint), bigint, Date
+            return match self.rng.below(8) {
+                0 => Runtype::new(RuntypeKind::BigInt),
+                1 => Runtype::new(RuntypeKind::Date),
+                // the first four kinds more often, so that two operands meet on neighbouring kinds
+                2 | 3 | 4 | 5 => Runtype::typed_array(crate::refmodel::TYPED_KINDS[self.rng.below(4)]),
+                _ => Runtype::typed_array(crate::refmodel::TYPED_KINDS[self.rng.below(11)]),
+            };
         }
         match self.rng.below(12) {
             0 => Runtype::null(),
